@@ -36,6 +36,9 @@ def _rc(rng, *shape):
     return rng.normal(size=shape) + 1j * rng.normal(size=shape)
 
 
+_MU = [sp.Rational(-1, 1000), sp.Rational(1, 400), sp.Rational(1, 25), sp.Rational(9, 16)]      # ascending, one slightly negative (rounding) eigenvalue
+
+
 class SpinFlip:
     prop = PROP; name = 'get_concurrence_2qubit.spin_flip'; modules = [eof]
     targets = ['numqi.entangle.eof:get_concurrence_2qubit']
@@ -61,13 +64,13 @@ class SpinFlip:
                     for i in range(4): e[i, i] = sp.Integer(1)
                     return SymArray(np.array([sp.Integer(1)] * 4, dtype=object), np.float64, ALG), SymArray(e, np.complex128, ALG)
                 def eigvalsh(s, a):
-                    rec.append(a); return SymArray(np.array([sp.Integer(0)] * 4, dtype=object), np.float64, ALG)
+                    rec.append(a); return SymArray(np.array(list(_MU), dtype=object), np.float64, ALG)
             shim_np.__dict__['linalg'] = L('lin')
             try:
-                eof.get_concurrence_2qubit(rho)
+                val = eof.get_concurrence_2qubit(rho)
             finally:
                 shim_np.__dict__['linalg'] = real_linalg
-            return dict(z=SS.arr(rec[0]) if rec else None)
+            return dict(z=SS.arr(rec[0]) if rec else None, val=val)
         # native: recompute the same matrix through the real code path with sqrt_rho = I
         real_eigh, real_eigvalsh = np.linalg.eigh, np.linalg.eigvalsh
         with shimmed([], extra={(np.linalg, 'eigh'): lambda a: (np.ones(4), np.eye(4, dtype=complex)), (np.linalg, 'eigvalsh'): lambda a: (rec.append(a), np.zeros(4))[1]}):
@@ -86,7 +89,13 @@ class SpinFlip:
                         YY[a * 2 + b, c * 2 + d] = sy[a, c] * sy[b, d]
         Rc = SS.dagger(R).T
         ref = np.matmul(np.matmul(YY, Rc), YY)
-        return [('spectrum_is_taken_of_(sy(x)sy)_conj(rho)_(sy(x)sy)_sandwiched_by_sqrt_rho', r['z'], ref)]
+        cl = [('spectrum_is_taken_of_(sy(x)sy)_conj(rho)_(sy(x)sy)_sandwiched_by_sqrt_rho', r['z'], ref)]
+        if obj and 'val' in r:
+            # Wootters: C = max(0, l_max - sum of the others) with l_i = sqrt(max(0, mu_i)) for the (ascending) eigenvalues mu the stub hands back
+            ls = [sp.sqrt(max(sp.Integer(0), m)) for m in _MU]
+            v = r['val'] if isinstance(r['val'], sp.Basic) else SS.arr(r['val']).ravel()[0]
+            cl.append(('result_is_wootters_formula_on_the_returned_eigenvalues', v, sp.Max(0, 2 * ls[-1] - sum(ls))))
+        return cl
 
     def sample(self, rng, _):
         x = _rc(rng, 4, 4)
